@@ -16,7 +16,7 @@ static const char *kOpNames[] = {"global",        "legalize",      "detailed",
 static const char *kCbNames[] = {"throw_rt", "throw_ba", "throw_int", "poke",
                                  "badcall",  "resize",   "nest",      "badparams"};
 static const char *kVmNames[] = {"fresh",  "copy",    "twice", "after_other",
-                                 "nested", "freerun", "pinned"};
+                                 "nested", "freerun", "pinned", "history"};
 
 std::string opKindName(int k) {
   return (k >= 0 && k < OP_NKINDS) ? kOpNames[k] : "op?";
